@@ -12,6 +12,7 @@ from ..cfg import CFG
 from ..dataflow import inline_env
 from ..astutil import subst_names
 from ..report import norm_text
+from ..astutil import inline_single_defs
 from ..witness import witness, twin
 
 LEVEL = "other"
@@ -96,6 +97,8 @@ def _dimensional_thresholds(fn_node):
         if isinstance(n_, ast.Compare) and len(n_.ops) == 1 and isinstance(n_.ops[0], (ast.Lt, ast.LtE, ast.Gt, ast.GtE)):
             for lit, other in ((n_.left, n_.comparators[0]), (n_.comparators[0], n_.left)):
                 c = const_value(lit)
+                if isinstance(other, ast.Name):             # a local holding a count is a count
+                    other = inline_single_defs(fn_node, other)
                 if isinstance(c, (int, float)) and not isinstance(c, bool) and c != 0 and not count_like(other):
                     t = norm_text(other).lower()
                     if ("cycle" in t or "load" in t) and "probab" not in t:
